@@ -338,7 +338,7 @@ def _check_pairing(ctx: Ctx) -> None:
     if len(rets) != 1:
         ctx.error('C09.e: %s no longer returns (precoders, filters, stream counts)' % q)
     outs = [norm(e) for e in rets[0].value.elts]
-    outer = [l for l in walk_no_nested(fn.node) if isinstance(l, ast.For)]
+    outer = [l for l in fn.node.body if isinstance(l, ast.For)]
     inner = [l for o in outer for l in ast.walk(o) if isinstance(l, ast.For) and l is not o]
     if len(outer) != 1 or len(inner) != 1:
         ctx.error('C09.e: %s: user loop / candidate loop not recognised' % q)
